@@ -469,6 +469,35 @@ func faultThread(c *Cluster, s *vsched.Sched, spec ScenarioSpec) {
 		if l != "" && c.SC != nil {
 			c.SC.NodeBecameUnavailable(c.Nodes[l].Addr)
 		}
+	case "lost-become-leader-response":
+		// the next BecomeLeader is executed by the node but the coordinator never sees the answer
+		c.DropBecomeLeaderResp = 1
+		l, _ := c.LeaderByStatus()
+		if l != "" && c.SC != nil {
+			c.SC.NodeBecameUnavailable(c.Nodes[l].Addr)
+		}
+	case "coord-crash-after-become-leader":
+		// the coordinator dies after a node has become leader and before the outcome is stored
+		c.DropBecomeLeaderResp = 1
+		l, _ := c.LeaderByStatus()
+		if l != "" && c.SC != nil {
+			c.SC.NodeBecameUnavailable(c.Nodes[l].Addr)
+		}
+		for i := 0; i < 50; i++ {
+			s.Sleep(100 * time.Millisecond)
+			lost := false
+			for _, e := range c.Events {
+				if e.Kind == "lost:BecomeLeader" {
+					lost = true
+				}
+			}
+			if lost {
+				break
+			}
+		}
+		c.CrashCoordinator()
+		s.Sleep(500 * time.Millisecond)
+		c.StartCoordinator([]string{"n1", "n2", "n3"})
 	case "coord-crash":
 		// provoke an election and kill the coordinator while it runs
 		l, _ := c.LeaderByStatus()
